@@ -65,9 +65,12 @@ func EOFTok(t Token, pos int) bool { return t.Typ == TEOF && t.Val == "EOF" && t
 // Reset: the state errorf leaves behind (the stream ends).
 func Reset(l *Lexer) bool { return l.input == "" && l.pos == 0 && l.start == 0 }
 
+// KnownTyp: t is one of the declared token types.
+func KnownTyp(t TokType) bool { return TErr <= t && t <= TStart }
+
 // TokDone: a state function finished with a proper token for input[s:pos].
 func TokDone(l *Lexer, input string, s int) bool {
-	return l.input == input && l.currItem.Typ != TErr && l.currItem.Typ != TEOF && l.currItem.pos == s &&
+	return l.input == input && l.currItem.Typ != TErr && l.currItem.Typ != TEOF && l.currItem.Typ != TStart && KnownTyp(l.currItem.Typ) && l.currItem.pos == s &&
 		s < l.pos && l.pos <= len(input) && l.start == l.pos && l.currItem.Val == input[s:l.pos]
 }
 
@@ -115,6 +118,9 @@ func NextDone(l *Lexer, input string, p0 int) bool {
 	}
 	return LexOK(l) && p0 <= t.pos && AllWS(input, p0, t.pos) && TokDone(l, input, t.pos)
 }
+
+// Remaining: input bytes not yet consumed (the parser's termination measure).
+func Remaining(l *Lexer) int { return len(l.input) - l.pos }
 
 // NextOf is the token Next returns from state l (Next runs on a copy: l is a value).
 func NextOf(l Lexer) Token { return l.Next() }
@@ -208,6 +214,8 @@ var _ = reflect.ValueOf
 //@   requires LexOK(l)
 //@   ensures  NextDone(l, old(l.input), old(l.pos)) && result == l.currItem
 //@   ensures  LexPub(l)
+//@   ensures[progress] result.Typ != TEOF && result.Typ != TErr ==> Remaining(l) < Remaining(old(l))
+//@   ensures  KnownTyp(result.Typ) && result.Typ != TStart && Remaining(l) >= 0
 //@   loop 0: with state tokenStateFn
 //@   loop 0: invariant NextInv(l, state, old(l.input), old(l.pos))
 //@   loop 0: decreases StateRank(state)
@@ -216,3 +224,16 @@ var _ = reflect.ValueOf
 //@   props C16
 //@   requires LexPub(&l)
 //@   ensures  result.Typ == NextOf(l).Typ && result.Val == NextOf(l).Val
+//@   ensures  KnownTyp(result.Typ) && result.Typ != TStart
+
+// ---- precedence ----------------------------------------------------------------------------------
+
+//@ func HasLessPrecedence
+//@   props C05 C07
+//@   pure
+//@   ensures result == (current.Typ != next.Typ && current.Typ > next.Typ)
+
+//@ func IsTerminal
+//@   props C05 C16
+//@   pure
+//@   ensures result == (tok.Typ == TErr || tok.Typ == TLiteral || tok.Typ == TQuoted || tok.Typ == TRegexp || tok.Typ == TEOF)
